@@ -16,7 +16,7 @@ import sys
 import tempfile
 import time
 
-from egverif import common
+from egverif import common, reach
 
 LEVELS = {"C13": "fault_enumeration"}
 NSHARDS = 16
@@ -69,7 +69,9 @@ def main(argv=None):
         k, n = (int(x) for x in args.shard.split("/"))
         ctx.shard, ctx.nshards = k, n
         try:
-            mod.run(ctx)
+            with reach.Reach(prop) as rc:
+                mod.run(ctx)
+            ctx.reach = rc.summary()
         except Exception:  # noqa: BLE001
             import traceback
 
@@ -85,7 +87,9 @@ def main(argv=None):
             run_sharded(ctx, prop, args)
         else:
             ctx.shard, ctx.nshards = 0, 1
-            mod.run(ctx)
+            with reach.Reach(prop) as rc:
+                mod.run(ctx)
+            ctx.reach = rc.summary()
     except Exception:  # noqa: BLE001 - a crash of the harness is never a verdict
         import traceback
 
